@@ -95,7 +95,7 @@ def extract(repo=REPO):
     outdir = os.path.join(CACHE, 'facts-' + key)
     done = os.path.join(outdir, '.done')
     if not os.path.exists(done):
-        os.makedirs(outdir, exist_ok=True)
+        os.makedirs(CACHE, exist_ok=True)
         # prune older fact dirs (disk hygiene)
         for d in os.listdir(CACHE):
             p = os.path.join(CACHE, d)
@@ -105,17 +105,33 @@ def extract(repo=REPO):
                         subprocess.run(['rm', '-rf', p])
                 except OSError:
                     pass
+        # several checks may start side by side on a fresh tree: each extracts into a directory of its own and
+        # publishes it with one atomic rename; whoever comes second keeps the published one
+        import tempfile, shutil
+        tmp = tempfile.mkdtemp(prefix='facts-' + key + '.tmp.', dir=CACHE)
 
         def one(u):
-            out = os.path.join(outdir, os.path.basename(u) + '.json')
+            out = os.path.join(tmp, os.path.basename(u) + '.json')
             r = subprocess.run([VX, repo, out, u, '--'] + flags(repo), capture_output=True, text=True)
             return u, r.returncode, r.stderr
         with ThreadPoolExecutor(max_workers=16) as ex:
             res = list(ex.map(one, units))
         for u, rc, err in res:
             if rc != 0:
+                shutil.rmtree(tmp, ignore_errors=True)
                 raise AnalysisBroken(f'vx failed on {u}: {err[-2000:]}')
-        open(done, 'w').write('ok')
+        open(os.path.join(tmp, '.done'), 'w').write('ok')
+        for attempt in range(3):
+            try:
+                os.rename(tmp, outdir)
+                break
+            except OSError:
+                if os.path.exists(done):
+                    shutil.rmtree(tmp, ignore_errors=True)
+                    break
+                shutil.rmtree(outdir, ignore_errors=True)      # a stale, unfinished directory
+        else:
+            outdir = tmp
     facts = []
     for u in units:
         p = os.path.join(outdir, os.path.basename(u) + '.json')
